@@ -295,8 +295,21 @@ def stepRaw (d : DState) (l : Line) : DState × List Verdict :=
   else if l.op == "resume" then stepResume d l
   else if l.op == "vop" then
     match getStr l.obs "twin", getStr l.obs "res" with
-    | some t, some r => if t == r then (d, []) else (d, [.mismatch "vop" t r])
+    | some t, some r =>
+      let name := (getStr l.args "name").getD "?"
+      let cache := (getStr l.obs "cache").getD "-"
+      let v1 : List Verdict := if t == r then [] else [.mismatch "vop" t r]
+      -- the volume manager's in-memory volumes against the persisted rows after the operation
+      let v2 : List Verdict := if cache == "-" then [] else [.monitor s!"c09/cache_agrees_after_success/{name}" s!"disagree={cache}"]
+      (d, v1 ++ v2)
     | _, _ => (d, [.badline "vop fields"])
+  else if l.op == "deliver" then
+    -- who received the event against who is registered for its scope in the database
+    match getStrList l.obs "want", getStrList l.obs "got" with
+    | some want, some got =>
+      if want == got then (d, []) else
+        (d, [.monitor "c09/webhook_delivery_matches_store" s!"registered={showStrList want},received={showStrList got}"])
+    | _, _ => (d, [.badline "deliver fields"])
   else (d, [.badline "unknown op"])
 
 /-- Verdicts outside the focus are dropped.  A flagged `op`/`resume` line ends the history (the two
@@ -308,7 +321,7 @@ def step (d : DState) (l : Line) : DState × List Verdict :=
   else
     let (d', vs) := stepRaw d l
     let vs := vs.filter (inFocus d.focus)
-    let fatal := !vs.isEmpty && !(l.op == "restart" || l.op == "irestart")
+    let fatal := !vs.isEmpty && !(l.op == "restart" || l.op == "irestart" || l.op == "deliver")
     ({ d' with dead := fatal }, vs)
 
 def stats (d : DState) : String :=
